@@ -86,6 +86,28 @@ def m_done(s, av):
     if s.concrete is None and not s.check(): raise PathEnd('infeasible')
     s.events.append(('done',)); return None
 
+@model('vp_check_range')
+def m_check_range(s, av):
+    # [ptr, ptr+len) must lie inside one live allocation for every value of len (natively: the range is written, under ASan)
+    p = s.concretize(av[0], 'address'); n = av[1]
+    i = s.find_alloc(p)
+    if i is None or not s.ainfo[i][1]: raise Violation('memory', 'vp_check_range: %#x is not inside a live block' % p)
+    base = s.abase[i]; size = s.ainfo[i][0]
+    bad = z3.UGT(bv(n, 64) + (p - base), bv(size, 64))
+    bad = z3.simplify(z3.Or(bad, z3.UGT(bv(n, 64), z3.BitVecVal(1 << 40, 64))))
+    s.stats['asserts'] += 1
+    if z3.is_true(bad) or (not z3.is_false(bad) and s.feasible(bad)):
+        m = None
+        if not z3.is_true(bad):
+            s.solver.push(); s.solver.add(bad)
+            if s.check(): m = s.solver.model()
+            s.solver.pop()
+        s.violation('memory', 'range of %s bytes at offset %d can extend past the end of its block (allocated at %s)' % ('symbolic' if not is_c(n) else n, p - base, s.ainfo[i][3]), None, m)
+        if not z3.is_true(bad): s.add(z3.Not(bad))
+        else: raise PathEnd('infeasible')
+    else: s.events.append(('assert', 9001, 'range'))
+    return None
+
 @model('vp_mark')
 def m_mark(s, av):
     s.extra['leak_mark'] = s.heap; return None
@@ -124,6 +146,13 @@ def m_symbolic(s, av): return 1
 # ---------------------------------------------------------------- allocation
 @model('_Znwm', '_Znam', 'malloc', '_ZnwmSt11align_val_t')
 def m_new(s, av):
+    n = av[0]
+    if not is_c(n) and s.B.get('symalloc'):
+        # bounded symbolic allocation: the size stays a term (must be provably below 2^31); accesses are checked by query
+        if s.feasible(z3.UGE(n, 1 << 31)): raise BoundExceeded('symbolic allocation size may exceed 2^31')
+        site = s.frames[-1].code.name if s.frames else None
+        s.stats['allocs'] += 1
+        return s.alloc(z3.simplify(n), 'heap', site)
     n = s.concretize(av[0], 'allocation size')
     if n > (1 << 31): raise BoundExceeded('allocation of %d bytes' % n)
     site = s.frames[-1].code.name if s.frames else None
